@@ -4,6 +4,12 @@ TLC (HabRomMC) checks the acceptance automaton + the documented layout in small 
 mutants rejected, coverage), TLC (HabGen) enumerates the abstract cases, this module only BUILDS them through
 HabContainer.load_from_config, WALKS the exported bytes along the automaton (executor: asn1crypto parsing + `cryptography` /
 hashlib primitives, never spsdk.crypto) and logs one event per step with every number used; TLC (HabRomTrace) decides every trace.
+
+The XMCD kind is a dimension of the case space (HabLayout!XmcdKinds: the five block shapes of RT116x / RT117x + a raw header with
+arbitrary bytes): every kind x plain / authenticated / encrypted x source of the block (golden block of NXP under anchors/C07/xmcd,
+block built by SPSDK's XMCD class from its own template, header of the kind + random bytes).  The round-trip clause (ParseBackOK)
+demands that SPSDK's parser recovers a DCD / XMCD segment at the place and of the size the ROM read, with the same header fields and
+bytes, and that the parsed container exports to the image it was parsed from.
 """
 import hashlib
 import json
@@ -65,13 +71,100 @@ def make_dcd(n, r):
 XMCD_SEL = [(0, 0, 0), (1, 0, 0), (0, 0, 1), (0, 1, 0), (1, 0, 1), (1, 1, 0)]  # (interface, instance, block type)
 
 
-def make_xmcd(n, sel, r):
-    iface, inst, btype = XMCD_SEL[sel]
-    hdr = bytes([n & 0xFF, (btype << 4) | (n >> 8), (iface << 4) | inst, 0xC0])
-    data = bytearray(r.randrange(256) for _ in range(n - 4))
-    if len(data) > 0xC0:  # file offset 0x104 (a place SPSDK's application finder probes): even byte = never a Thumb reset vector
-        data[0xC0] &= 0xFE
-    return hdr + bytes(data), f"if{iface}-inst{inst}-type{btype}"
+def _no_reset_vector(block):
+    """File offset 0x104 = block offset 0xC4 is a place SPSDK's heuristic application finder probes: an even byte there is
+    never a Thumb reset vector (assumption of the check, see v.assumptions)."""
+    block = bytearray(block)
+    if len(block) > 0xC4:
+        block[0xC4] &= 0xFE
+    return bytes(block)
+
+
+# XMCD kind (names of HabLayout!XmcdKinds) -> (memory type, configuration type, option size of the simplified FlexSPI block)
+XMCD_KIND_CFG = {"fsr_s0": ("flexspi_ram", "simplified", 0), "fsr_s1": ("flexspi_ram", "simplified", 1), "sdram_s": ("semc_sdram", "simplified", None),
+                 "sdram_f": ("semc_sdram", "full", None), "fsr_f": ("flexspi_ram", "full", None)}
+_xmcd_golden = {}
+_xmcd_tmpl = {}
+
+
+def xmcd_golden(kind):
+    """Golden block of that kind (NXP's test data, frozen under anchors/C07/xmcd; checked against its recorded SHA-256)."""
+    if kind not in _xmcd_golden:
+        from lib.common import ROOT
+
+        base = os.path.join(ROOT, "anchors", "C07", "xmcd")
+        m = json.load(open(os.path.join(base, "meta.json")))["blocks"][kind]
+        b = open(os.path.join(base, m["file"]), "rb").read()
+        if hashlib.sha256(b).hexdigest() != m["sha256"] or len(b) != m["size"]:
+            raise Machinery(f"golden XMCD block {kind} does not match anchors/C07/xmcd/meta.json")
+        _xmcd_golden[kind] = b
+    return _xmcd_golden[kind]
+
+
+def xmcd_families():
+    """HAB families that have an XMCD (database)."""
+    from spsdk.image.hab.hab_container import HabContainer
+    from spsdk.image.xmcd.xmcd import XMCD
+
+    return sorted(set(HabContainer.get_supported_families()) & set(XMCD.get_supported_families()))
+
+
+def _xmcd_from_template(arg):
+    """The block SPSDK's own XMCD class builds from its configuration template (real path of a user: get-template -> export)."""
+    kind, family = arg
+    try:
+        import io
+
+        from ruamel.yaml import YAML
+        from spsdk.image.mem_type import MemoryType
+        from spsdk.image.xmcd.xmcd import XMCD, ConfigurationBlockType
+
+        mem, cfgt, optsize = XMCD_KIND_CFG[kind]
+        tpl = XMCD.generate_config_template(family, MemoryType.from_label(mem), ConfigurationBlockType.from_label(cfgt))
+        cfg = YAML(typ="safe").load(io.StringIO(tpl))
+        if optsize == 0:  # FlexSPI RAM simplified with option word 0 only
+            cfg["xmcd_settings"]["configOption0"]["optionSize"] = 0
+            cfg["xmcd_settings"].pop("configOption1", None)
+        return kind, XMCD.load_from_config(cfg).export(), family
+    except Exception as x:  # noqa: BLE001 - the XMCD class is not the subject of C07: the case falls back to the golden block
+        return kind, None, f"{family}: {type(x).__name__}: {x}"[:200]
+
+
+def prepare_xmcd(kinds=None):
+    """Build the template blocks once (in the parent, before the workers fork).  Family by seed: all HAB families with an XMCD share
+    the register files, so one family per run is drawn."""
+    kinds = [k for k in (kinds or sorted(XMCD_KIND_CFG)) if k not in _xmcd_tmpl]
+    if not kinds:
+        return
+    fams = xmcd_families()
+    if not fams:
+        raise Machinery("no HAB family with an XMCD in the database")
+    fam = rng(PROP, "xmcd-family").choice(fams)
+    for kind, block, note in pmap(_xmcd_from_template, [(k, fam) for k in kinds], chunksize=1):
+        _xmcd_tmpl[kind] = (block, note)
+
+
+def make_xmcd(c, r):
+    """XMCD block of the abstract case: (bytes, class name for the finding key, source actually used)."""
+    kind, var = c.get("xmcdKind", "raw"), c.get("xmcdVar", "rand")
+    if kind == "raw":  # well-formed header of any interface / instance / type + arbitrary configuration bytes
+        n = c["cfgLen"]
+        iface, inst, btype = XMCD_SEL[c["xmcdSel"]]
+        hdr = bytes([n & 0xFF, (btype << 4) | (n >> 8), (iface << 4) | inst, 0xC0])
+        return _no_reset_vector(hdr + bytes(r.randrange(256) for _ in range(n - 4))), f"if{iface}-inst{inst}-type{btype}", "rand"
+    gold = xmcd_golden(kind)
+    src = var
+    if var == "tmpl":
+        prepare_xmcd([kind])
+        block = _xmcd_tmpl[kind][0]
+        if block is None:
+            block, src = gold, "golden(tmpl failed)"
+    elif var == "rand":  # header of the kind (from the golden block), instance by index, arbitrary configuration bytes
+        hdr = gold[0:2] + bytes([(gold[2] & 0xF0) | c.get("xmcdInst", 0)]) + gold[3:4]
+        block = hdr + bytes(r.randrange(256) for _ in range(len(gold) - 4))
+    else:
+        block = gold
+    return _no_reset_vector(block), f"{kind}-{var}", src
 
 
 _db_lays = None
@@ -127,6 +220,7 @@ def concretise(c, wd):
     os.makedirs(wd, exist_ok=True)
     start = STARTS[c["startSel"]]
     ivt_off, ils, flags = c["ivtOff"], c["ils"], c["flags"]
+    xmcd_src = None
     app = bytearray(r.randrange(256) for _ in range(c["appLen"]))
     rv = (start + ils + r.randrange(8, max(9, min(c["appLen"], 0x3000)))) | 1
     app[0:4] = struct.pack("<I", 0x20200000 + 8 * r.randrange(0x1000))
@@ -154,7 +248,7 @@ def concretise(c, wd):
         with open(os.path.join(wd, "dcd.bin"), "wb") as f:
             f.write(cfg_bytes)
     elif c["cfg"] == "xmcd":
-        cfg_bytes, cls = make_xmcd(c["cfgLen"], c["xmcdSel"], r)
+        cfg_bytes, cls, xmcd_src = make_xmcd(c, r)
         cfg_cls = "xmcd-" + cls
         opts["XMCDFilePath"] = "xmcd.bin"
         with open(os.path.join(wd, "xmcd.bin"), "wb") as f:
@@ -168,8 +262,9 @@ def concretise(c, wd):
     ver = int(c["ver"].replace(".", ""), 16)
     inp = {"start": lim(start), "ivtOff": ivt_off, "ils": ils, "appLen": len(app), "flags": flags, "cfgKind": c["cfg"],
            "cfgLen": len(cfg_bytes), "entry": lim(entry), "ver": ver, "nSrk": c["nSrk"], "srcIdx": src, "fast": fast,
-           "imgTgt": c["tgt"], "vfyIdx": 0 if fast else c["tgt"], "macLen": c["macLen"], "dekLen": c["dekLen"]}
-    ctx = {"case": c, "wd": wd, "app": app, "cfg_bytes": cfg_bytes, "cfg_cls": cfg_cls, "start": start, "inp": inp, "family": fam,
+           "imgTgt": c["tgt"], "vfyIdx": 0 if fast else c["tgt"], "macLen": c["macLen"], "dekLen": c["dekLen"],
+           "xmcdKind": c.get("xmcdKind", "raw") if c["cfg"] == "xmcd" else "none"}
+    ctx = {"case": c, "wd": wd, "app": app, "cfg_bytes": cfg_bytes, "cfg_cls": cfg_cls, "start": start, "inp": inp, "family": fam, "xmcd_src": xmcd_src,
            "dek_path": None, "fuse": None, "srk_pub_der": None, "csfk_der": None, "imgk_der": None}
     if flags != "plain":
         table, fuse = srk_table(tree, c["nSrk"])
@@ -446,7 +541,8 @@ def _walk(d, ctx, ev, reg):
         o = 0x40
         need(o, 4, "XMCD")
         size = d[o] | ((d[o + 1] & 0x0F) << 8)
-        ev.append({"ev": "Xmcd", "at": o, "tag": d[o + 3] >> 4, "size": size, "match": d[o:o + len(cfgb)] == cfgb})
+        ev.append({"ev": "Xmcd", "at": o, "tag": d[o + 3] >> 4, "ver": d[o + 3] & 0x0F, "size": size, "iface": d[o + 2] >> 4, "inst": d[o + 2] & 0x0F,
+                   "btype": d[o + 1] >> 4, "match": d[o:o + len(cfgb)] == cfgb})
         reg["cfg"] = [(o, o + len(cfgb))]
     app_at = inp["ils"] - inp["ivtOff"]
     found = d.find(app)
@@ -625,6 +721,12 @@ def parse_back(d, ctx):
         csf_at = csf.offset if csf else len(d)
         cfg_seg = hab.dcd_segment if inp["cfgKind"] == "dcd" else hab.xmcd_segment if inp["cfgKind"] == "xmcd" else None
         cfg_eq = (cfg_seg is not None and cfg_seg.export() == cfgb) if inp["cfgKind"] != "none" else True
+        # the DCD / XMCD segment the parser recovered: where, how long, and (XMCD) the header fields of the parsed object
+        any_cfg = hab.xmcd_segment or hab.dcd_segment
+        cfg_at, cfg_len = (any_cfg.offset, len(any_cfg.export())) if any_cfg is not None else (-1, 0)
+        xh = hab.xmcd_segment.segment.header if hab.xmcd_segment is not None else None
+        xf = {"xSize": xh.block_size, "xIface": xh.interface, "xInst": xh.instance, "xType": xh.block_type} if xh is not None else \
+            {"xSize": -1, "xIface": -1, "xInst": -1, "xType": -1}
         ab = hab.app_segment.binary
         aa = hab.app_segment.offset
         if inp["flags"] == "enc":
@@ -636,7 +738,7 @@ def parse_back(d, ctx):
                 "plugin": n31(bdt.plugin), "flags": hab.flags, "hasDcd": hab.dcd_segment is not None, "hasXmcd": hab.xmcd_segment is not None,
                 "hasCsf": csf is not None, "appAt": aa, "cStart": lim(hab.start_address), "cIvtOff": n31(hab.ivt_offset), "nCmds": len(csf.segment.commands) if csf else 0,
                 "ivtEq": hab.ivt_segment.export() == d[0:32], "bdEq": hab.bdt_segment.export()[:12] == d[bd_at:bd_at + 12],
-                "cfgEq": cfg_eq, "appEq": app_eq, "csfEq": (csf.export() == d[csf_at:csf_at + 0x2000]) if csf else True,
+                "cfgAt": cfg_at, "cfgLen": cfg_len, **xf, "cfgEq": cfg_eq, "appEq": app_eq, "csfEq": (csf.export() == d[csf_at:csf_at + 0x2000]) if csf else True,
                 "reexpEq": hab.export() == d}
     except Exception as x:  # noqa: BLE001 - recorded, decided by the spec
         return {"ev": "ParseBack", "ok": False, "err": f"{type(x).__name__}: {x}"[:160]}
@@ -658,7 +760,7 @@ def run_case(arg):
     except Exception as x:  # noqa: BLE001 - SRK table / fuse value could not be produced by SPSDK from valid certificates
         ev = [{"ev": "BuildFailed", "exc": type(x).__name__, "msg": "preparing the SRK table: " + str(x)[:160]}]
         return [{"id": tid, "inp": {"flags": c["flags"], "waive": []}, "ev": ev, "meta": {"case": c, "cfg_cls": c["cfg"], "family": None}}]
-    meta = {"case": c, "cfg_cls": ctx["cfg_cls"], "family": ctx["family"]}
+    meta = {"case": c, "cfg_cls": ctx["cfg_cls"], "family": ctx["family"], "xmcd_src": ctx["xmcd_src"]}
     try:
         d = build(ctx)
     except Exception as x:  # noqa: BLE001 - a refused / crashed build of a valid configuration is an observation
@@ -685,6 +787,12 @@ def run_case(arg):
     return out
 
 
+# A golden image of the repository's test data that a ROM would NOT accept: its SRK table holds the keys in the order SRK3, SRK1, SRK2,
+# SRK4, Install SRK selects index 0 (SRK3), but both signatures were made with SRK1 (table index 1) - the CMS signatures verify under
+# entry 1 only.  It is kept as a NEGATIVE anchor: the automaton must reject it, and at this step.
+ANCHOR_MUST_REJECT = {"anchor/rt1060_flashloader_authenticated_nocak": "Authenticate"}
+
+
 def anchor_traces():
     """Golden images of the repository's test data (frozen copies under anchors/C07, produced by NXP's tool chain): the ROM part of
     the automaton must accept every one of them - this binds the R-spec to artefacts that were not produced by the tree under test."""
@@ -694,6 +802,8 @@ def anchor_traces():
     out = []
     for name in sorted(os.listdir(base)):
         a = os.path.join(base, name)
+        if not os.path.exists(os.path.join(a, "output.bin")):  # anchors/C07/xmcd: golden XMCD blocks (inputs), not images
+            continue
         m = json.load(open(os.path.join(a, "meta.json")))
         o, sec = m["options"], m["sections"]
         rd = lambda f: open(os.path.join(a, f), "rb").read() if os.path.exists(os.path.join(a, f)) else None  # noqa: E731
@@ -707,7 +817,7 @@ def anchor_traces():
                "srcIdx": int(sec["21"]["installsrk_sourceindex"]) if "21" in sec else 0, "fast": "23" in sec,
                "imgTgt": int(sec["25"]["installkey_targetindex"]) if "25" in sec else 0,
                "vfyIdx": int(sec["26"]["authenticatedata_verificationindex"]) if "26" in sec else 0,
-               "macLen": int(sec["28"].get("decrypt_macbytes", 16)) if "28" in sec else 16, "dekLen": len(rd("dek.bin") or b""), "waive": []}
+               "macLen": int(sec["28"].get("decrypt_macbytes", 16)) if "28" in sec else 16, "dekLen": len(rd("dek.bin") or b""), "waive": [], "xmcdKind": "none"}
         ctx = {"inp": inp, "app": app, "cfg_bytes": dcd or b"", "start": o["startaddress"], "srk_der": None,
                "fuse": bytes.fromhex(m["fuse_hex"]) if m.get("fuse_hex") else None, "csfk_der": rd("csfk.der"), "imgk_der": rd("imgk.der"),
                "dek_path": os.path.join(a, "dek.bin") if rd("dek.bin") else None}
@@ -764,7 +874,8 @@ def finding_key(t, matched):
     elif name in ("InstallKey", "Authenticate"):
         cls = f"pcl{e.get('pcl')}-{c['tree']}"
     elif name == "BuildFailed":
-        cls = f"{c['cfg']}-{c['tree'] if c['flags'] != 'plain' else 'nokeys'}-{c['keyvar'] if c['flags'] != 'plain' else ''}"
+        cfg = c["cfg"] + (f"-{c.get('xmcdKind', 'raw')}" if c["cfg"] == "xmcd" else "")
+        cls = f"{cfg}-{c['tree'] if c['flags'] != 'plain' else 'nokeys'}-{c['keyvar'] if c['flags'] != 'plain' else ''}"
     elif name in ("Accept", "ParseBack"):
         cls = f"{c['lay']}-{m['cfg_cls']}"
     else:
@@ -775,6 +886,40 @@ def finding_key(t, matched):
 CANARY_FIELDS = [("ParseIvt", "self", lambda v: [v[0], (v[1] + 0x400) & 0xFFFF]), ("BootData", "len", lambda v: v - 0x2000),
                  ("Authenticate", "digestOk", lambda v: False), ("Authenticate", "blocks", lambda v: v[:-1]),
                  ("InstallKey", "fuseOk", lambda v: False), ("ParseBack", "appEq", lambda v: False)]
+
+
+XMCD_CANARY_FIELDS = [("ParseBack", "hasXmcd", lambda v: False), ("ParseBack", "cfgLen", lambda v: 0), ("ParseBack", "cfgAt", lambda v: -1),
+                      ("ParseBack", "xSize", lambda v: v - 4), ("ParseBack", "xType", lambda v: 1 - v), ("ParseBack", "xIface", lambda v: 1 - v),
+                      ("ParseBack", "xInst", lambda v: v + 1), ("ParseBack", "cfgEq", lambda v: False), ("ParseBack", "reexpEq", lambda v: False),
+                      ("Xmcd", "size", lambda v: v + 4), ("Xmcd", "iface", lambda v: 1 - v), ("Xmcd", "btype", lambda v: 1 - v),
+                      ("Xmcd", "match", lambda v: False)]
+
+
+def synthetic_xmcd_trace(kind):
+    """A known-good trace written down by hand from the documented layout - no code of the tree under test involved: a plain image
+    for a FlexSPI NOR device (IVT at 0x1000, application at 0x2000) that carries the golden XMCD block of `kind` at IVT + 0x40, and a
+    parser that recovers everything.  The header fields are read from the golden block with plain bit arithmetic."""
+    g = xmcd_golden(kind)
+    word = int.from_bytes(g[0:4], "little")  # tag [31:28] version [27:24] interface [23:20] instance [19:16] type [15:12] size [11:0]
+    size, btype, inst, iface = word & 0xFFF, (word >> 12) & 0xF, (word >> 16) & 0xF, (word >> 20) & 0xF
+    start, ivt_off, ils, app_len = 0x30000000, 0x1000, 0x2000, 4097
+    base, app_at = start + ivt_off, ils - ivt_off
+    file_len = app_at + app_len
+    entry = start + ils + 0x101
+    inp = {"start": lim(start), "ivtOff": ivt_off, "ils": ils, "appLen": app_len, "flags": "plain", "cfgKind": "xmcd", "cfgLen": len(g),
+           "entry": lim(entry), "ver": 0x40, "nSrk": 0, "srcIdx": 0, "fast": False, "imgTgt": 0, "vfyIdx": 0, "macLen": 16, "dekLen": 0,
+           "waive": [], "xmcdKind": kind}
+    ev = [{"ev": "ParseIvt", "tag": 0xD1, "len": 32, "ver": 0x40, "entry": lim(entry), "dcd": [0, 0], "bd": lim(base + 32), "self": lim(base),
+           "csf": [0, 0], "fileLen": file_len},
+          {"ev": "BootData", "at": 32, "start": lim(start), "len": ivt_off + file_len, "plugin": 0},
+          {"ev": "Xmcd", "at": 0x40, "tag": word >> 28, "ver": (word >> 24) & 0xF, "size": size, "iface": iface, "inst": inst, "btype": btype, "match": True},
+          {"ev": "App", "at": app_at, "len": app_len, "padOk": True},
+          {"ev": "Accept"},
+          {"ev": "ParseBack", "ok": True, "self": lim(base), "bd": lim(base + 32), "dcd": [0, 0], "csf": [0, 0], "entry": lim(entry),
+           "bdStart": lim(start), "bdLen": ivt_off + file_len, "plugin": 0, "flags": 0, "hasDcd": False, "hasXmcd": True, "hasCsf": False,
+           "appAt": app_at, "cStart": lim(start), "cIvtOff": ivt_off, "nCmds": 0, "ivtEq": True, "bdEq": True, "cfgAt": 0x40, "cfgLen": len(g),
+           "xSize": size, "xIface": iface, "xInst": inst, "xType": btype, "cfgEq": True, "appEq": True, "csfEq": True, "reexpEq": True}]
+    return {"id": f"canary/xmcd-{kind}/good", "inp": inp, "ev": ev, "meta": {}}
 
 
 def corrupt(good, prefix, fields):
@@ -797,30 +942,34 @@ def canary_batch(traces, anchors):
     good = next((t for t in anchors if t["inp"]["flags"] == "auth" and t["inp"]["cfgKind"] == "dcd"), None)
     if good is None:
         raise Machinery("no authenticated golden image with DCD for the canary")
-    groups = [("canary/anchor", dict(good, id="canary/anchor/good"), True)]
+    groups = [("canary/anchor", dict(good, id="canary/anchor/good"), True, CANARY_FIELDS)]
+    for kind in sorted(XMCD_KIND_CFG):  # one hand-written trace per XMCD kind: the kind table of the spec = the golden blocks
+        groups.append((f"canary/xmcd-{kind}", synthetic_xmcd_trace(kind), True, XMCD_CANARY_FIELDS))
     cands = [t for t in traces if t["inp"]["flags"] == "auth" and t["inp"]["cfgKind"] == "dcd" and t["ev"][-1]["ev"] == "ParseBack"
              and t["ev"][-1].get("ok") and "/t/" not in t["id"]][:3]
     for k, t in enumerate(cands):
-        groups.append((f"canary/run{k}", {"id": f"canary/run{k}/good", "inp": dict(t["inp"], waive=[]), "ev": t["ev"], "meta": {}}, False))
+        groups.append((f"canary/run{k}", {"id": f"canary/run{k}/good", "inp": dict(t["inp"], waive=[]), "ev": t["ev"], "meta": {}}, False, CANARY_FIELDS))
     batch = []
-    for prefix, g, _must in groups:
-        batch += [g] + corrupt(g, prefix, CANARY_FIELDS)
+    for prefix, g, _must, fields in groups:
+        batch += [g] + corrupt(g, prefix, fields)
     return batch, groups
 
 
 def canary_check(batch, groups, rej):
     n_bad = 0
-    for prefix, g, must in groups:
+    for prefix, g, must, fields in groups:
         if g["id"] in rej:
             if must:
-                raise Machinery(f"canary failed: the known-good golden trace was rejected: {rej[g['id']]}")
+                raise Machinery(f"canary failed: the known-good trace {g['id']} (golden image / hand-written) was rejected: {rej[g['id']]}")
             continue  # a trace of this run that the R-spec rejects is reported by the normal path
         bad = [b["id"] for b in batch if b["id"].startswith(prefix + "/bad")]
         acc = [i for i in bad if i not in rej]
-        if acc or len(bad) < 4:
+        if acc or len(bad) < (len(fields) if must and fields is XMCD_CANARY_FIELDS else 4):
             raise Machinery(f"canary failed: corrupted copies accepted {acc} ({len(bad)} corrupted copies of {g['id']})")
         n_bad += len(bad)
-    return f"{len(groups)} known-good traces (1 golden image + {len(groups) - 1} of this run), {n_bad} corrupted copies of the accepted ones rejected"
+    n_x = len(XMCD_KIND_CFG)
+    return (f"{len(groups)} known-good traces (1 golden image + {n_x} hand-written XMCD traces, one per kind + {len(groups) - 1 - n_x} of this run), "
+            f"{n_bad} corrupted copies of the accepted ones rejected")
 
 
 def strip(t):
@@ -844,10 +993,14 @@ def decide(v, traces):
     tampers = [t for t in traces if "/t/" in t["id"]]
     rej, _ = tlc.tv("C07", "HabRomTrace", [strip(t) for t in cb + anchors + traces], heap="8g", timeout=1500)
     v.extra["canary"] = canary_check(cb, groups, rej)  # decided first: nothing below counts if the monitor is not bound
-    bad_anchors = [(t["id"], rej[t["id"]]) for t in anchors if t["id"] in rej]
+    bad_anchors = [(t["id"], rej[t["id"]]) for t in anchors if t["id"] in rej and t["id"] not in ANCHOR_MUST_REJECT]
     if bad_anchors or len(anchors) < 11:
         raise Machinery(f"golden images (anchors/C07, not produced by the tree under test) rejected by the automaton: {bad_anchors}")
-    v.extra["anchors_accepted"] = len(anchors)
+    not_rejected = [i for i, evn in ANCHOR_MUST_REJECT.items() if i not in rej or rej[i][2] != evn]
+    if not_rejected:
+        raise Machinery(f"negative golden image (signed with another key than the installed SRK) not rejected at the expected step: {not_rejected}")
+    v.extra["anchors_accepted"] = len(anchors) - len(ANCHOR_MUST_REJECT)
+    v.extra["anchors_rejected_as_expected"] = sorted(ANCHOR_MUST_REJECT)
     v.traces(len(traces) + len(anchors))
     clean = {t["id"] for t in mains if t["id"] not in rej}
     for tid in clean:
@@ -901,12 +1054,28 @@ def run(tier):
             "DoInstallImgk", "DoAuthenticateData", "DoInstallSecretKey", "DoDecryptData", "DoOtherCmd", "DoCsfEnd", "DoAccept", "DoParseBack"]
     mc = tlc.mc("C07", "HabRomMC", require_actions=acts, env={"MC_FULL": 0 if tier == "quick" else 1}, timeout=1200, heap="6g")
     v.add_mc(mc)
-    say(f"[C07] MC HabRomMC: {mc.distinct} states, depth {mc.depth}, {mc.wall:.1f}s, all {len(acts)} actions fired, 7 lemmas hold")
+    say(f"[C07] MC HabRomMC: {mc.distinct} states, depth {mc.depth}, {mc.wall:.1f}s, all {len(acts)} actions fired, 8 lemmas hold "
+        f"(incl. every parse mutant rejected by the round-trip clause; every XMCD kind x flag in scope)")
 
     # ---- GEN
     cases, g = gen_cases(tier)
     v.add_mc(g)
     say(f"[C07] GEN HabGen: {len(cases)} abstract cases ({g.wall:.1f}s)")
+    # every XMCD kind under every flag, from every source, is in the case list of EVERY tier (deterministic, not sampled)
+    have = {(c["xmcdKind"], c["flags"], c["xmcdVar"]) for c in cases if c["cfg"] == "xmcd"}
+    want = {(k, f, s) for k in XMCD_KIND_CFG for f in ("plain", "auth", "enc") for s in ("golden", "tmpl", "rand")} | \
+           {("raw", f, "rand") for f in ("plain", "auth", "enc")}
+    if want - have:
+        raise Machinery(f"GEN does not span the XMCD dimension: missing {sorted(want - have)[:5]}")
+    prepare_xmcd()
+    failed = {k: note for k, (b, note) in _xmcd_tmpl.items() if b is None}
+    v.extra["xmcd_blocks"] = {"golden": {k: len(xmcd_golden(k)) for k in sorted(XMCD_KIND_CFG)},
+                              "template": {k: (len(b) if b is not None else None) for k, (b, _n) in sorted(_xmcd_tmpl.items())},
+                              "template_family": next((n for b, n in _xmcd_tmpl.values() if b is not None), None),
+                              "template_failed": failed}
+    if failed:
+        say(f"[C07] note: SPSDK's XMCD class could not build {sorted(failed)} from its template ({list(failed.values())[0]}); "
+            f"these cases use the golden block (the XMCD class is not the subject of C07)")
 
     # ---- build + execute (+ tamper) on the real code
     n_t = 1 if tier == "quick" else 3
@@ -928,7 +1097,9 @@ def run(tier):
     say(f"[C07] TV HabRomTrace: {n_ok}/{len(cases)} untampered images accepted (+{n_wok} with a known-finding clause waived), "
         f"{n_trej}/{n_tt} tampered images rejected")
     v.cov["rule"] = ("cases = states of HabGen (layout class x application size around the 4 KiB / 16-byte boundaries x plain/auth/enc x "
-                     "none/DCD/XMCD, secondary dimensions spread by index); one evaluation = one image built by HabContainer.load_from_config "
+                     "none/DCD, and layout class x plain/auth/enc x XMCD kind (FlexSPI RAM simplified 8 / 12 B, SEMC SDRAM simplified 13 B, "
+                     "SEMC SDRAM full 72 B, FlexSPI RAM full 516 B, raw header + bytes of 8..516 B) x source of the block (golden / built by "
+                     "SPSDK's XMCD class from its template / random configuration bytes); secondary dimensions spread by index); one evaluation = one image built by HabContainer.load_from_config "
                      "and walked by the executor (or one single-bit tampered copy); a case is non-trivial if TLC accepted its whole trace "
                      "(every ROM step + SPSDK's own parse)")
     v.cov["exhaustive"] = False
@@ -938,7 +1109,11 @@ def run(tier):
                                "asn1crypto: CMS / X.509 DER parsing", "harness/c07.py executor (validated step by step by HabRomTrace: every range it used is recomputed)"]
     v.assumptions += [
         "application offset (initial load size - IVT offset) is one of the device offsets of the database / of the repository's examples (0x400, 0xC00, 0x1000, 0x2000)",
-        "DCD and XMCD are alternatives (both live at IVT+0x40); DCD words are chosen so that no byte pattern imitates a Thumb reset vector or an XMCD tag for SPSDK's heuristic parser",
+        "DCD and XMCD are alternatives (both live at IVT+0x40); DCD words are chosen so that no byte pattern imitates a Thumb reset vector or an XMCD tag for SPSDK's heuristic parser; "
+        "likewise the byte of an XMCD block at file offset 0x104 (a place the heuristic application finder probes) is even",
+        "XMCD blocks are the kinds that exist for RT116x / RT117x (anchors/C07/xmcd, HabLayout!XmcdKinds) or a well-formed header + arbitrary bytes of 8..516 bytes "
+        "(no block bigger than the biggest real kind is asserted); the XMCD is accepted with every layout whose application offset is >= 0xC00, whatever the family",
+        "parse-back of encrypted images is not observable (known finding C07/enc/ParseBack/...): the XMCD round trip is decided for plain and authenticated images",
         "fast authentication (NOCAK): the key index written into Authenticate CSF is not asserted (0 or 1), only that the signature verifies under the SRK",
         "private keys are unencrypted PEM files (no pass phrase prompt); HAB engine / engine configuration bytes are not asserted",
         "the DEK blob itself is produced on the device and is not part of the image: only its location and the room reserved for it are checked",
